@@ -1,10 +1,10 @@
 #!/bin/sh
-# usage: tools/seedtest.sh <seed dir under /verif/seeded> <property> [tier]   -- applies the seeded change to /repo, runs the check, reverts.
+# usage: tools/seedtest.sh <seed dir under /verif/seeded> <property> [tier] [only-substring]   -- applies the seeded change to /repo, runs the check, reverts.
 set -u
-D="/verif/seeded/$1"; P="$2"; T="${3:-quick}"
+D="/verif/seeded/$1"; P="$2"; T="${3:-quick}"; O="${4:-}"
 if [ -n "$(git -C /repo status --porcelain)" ]; then echo "/repo working tree not clean"; exit 2; fi
 git -C /repo apply "$D/patch.diff" || { echo "patch does not apply"; exit 2; }
-cd /verif && ./check "$P" --tier "$T" --no-evidence > "/tmp/seedtest_$(echo $1 | tr / _)_$T.log" 2>&1; rc=$?
+cd /verif && ./check "$P" --tier "$T" --no-evidence ${O:+--only "$O"} > "/tmp/seedtest_$(echo $1 | tr / _)_$T.log" 2>&1; rc=$?
 git -C /repo checkout -- .
 grep -E "^VIOLATION|HARNESS-ERROR|^$P " "/tmp/seedtest_$(echo $1 | tr / _)_$T.log" | head -6
 echo "seed $1 property $P tier $T -> exit $rc"
